@@ -70,6 +70,9 @@ type RepoCache struct {
 	// the user identity's id, if known
 	muUserIdentity sync.RWMutex
 	userIdentityId entity.Id
+
+	// true once this cache has written the lock file: only then is the file ours to remove
+	locked bool
 }
 
 // NewRepoCache create or open a cache on top of a raw repository.
@@ -185,7 +188,13 @@ func (c *RepoCache) lock(events chan BuildEvent) error {
 		return err
 	}
 
-	return f.Close()
+	err = f.Close()
+	if err != nil {
+		return err
+	}
+
+	c.locked = true
+	return nil
 }
 
 func (c *RepoCache) Close() error {
@@ -203,6 +212,11 @@ func (c *RepoCache) Close() error {
 		return err
 	}
 
+	if !c.locked {
+		// the lock was never taken (another process holds it): the lock file is not ours
+		return nil
+	}
+	c.locked = false
 	return c.repo.LocalStorage().Remove(lockfile)
 }
 
